@@ -63,7 +63,7 @@ func c04Probe(a lib.Args, res *lib.Result) error {
 		}
 		return gw.Do(g.Addr(), q)
 	}
-	for _, b := range []string{"abk", "other"} {
+	for _, b := range []string{"abk", "other", "vbk"} {
 		if r := do(gw.Req{Method: "PUT", Path: "/" + b}); r.Status != 200 {
 			return fmt.Errorf("create %s: %d %s", b, r.Status, r.Body)
 		}
@@ -73,6 +73,9 @@ func c04Probe(a lib.Args, res *lib.Result) error {
 		do(gw.Req{Method: "PUT", Path: "/other/" + k, Body: []byte(c04Canary + "-other-bucket")})
 	}
 	do(gw.Req{Method: "PUT", Path: "/other/secret", Body: []byte(c04Canary + "-other-bucket-v2")})
+	do(gw.Req{Method: "PUT", Path: "/vbk", Query: "versioning", Body: []byte(`<VersioningConfiguration><Status>Enabled</Status></VersioningConfiguration>`)})
+	do(gw.Req{Method: "PUT", Path: "/vbk/own", Body: []byte("own object of the versioned bucket, v1")})
+	do(gw.Req{Method: "PUT", Path: "/vbk/own", Body: []byte("own object of the versioned bucket, v2")})
 	do(gw.Req{Method: "PUT", Path: "/abk/own", Body: []byte("own object of the named bucket")})
 	do(gw.Req{Method: "PUT", Path: "/abk/d1/d2/d3/d4/d5/deep", Body: []byte("deep own object")})
 	os.WriteFile(filepath.Join(cfg.Work, "outside.txt"), []byte(c04Canary+"-outside-root"), 0o644)
@@ -93,6 +96,7 @@ func c04Probe(a lib.Args, res *lib.Result) error {
 		for p := range s {
 			rel, _ := filepath.Rel(cfg.Work, p)
 			if rel == "root/abk" || strings.HasPrefix(rel, "root/abk/") || rel == "versions/abk" || strings.HasPrefix(rel, "versions/abk/") ||
+				rel == "root/vbk" || strings.HasPrefix(rel, "root/vbk/") || rel == "versions/vbk" || strings.HasPrefix(rel, "versions/vbk/") ||
 				rel == "root" || rel == "versions" || rel == "." {
 				delete(s, p)
 			}
@@ -111,7 +115,7 @@ func c04Probe(a lib.Args, res *lib.Result) error {
 	var cases []c04Case
 	ops := []string{"GetObject", "HeadObject", "PutObject", "DeleteObject", "CopyObject-source", "CopyObject-dest", "PutObjectTagging", "GetObjectTagging",
 		"CreateMultipartUpload", "DeleteObjects-key", "ListObjects-prefix", "ListObjects-marker", "AbortMultipartUpload-uploadId", "UploadPart-uploadId",
-		"GetObject-versionId", "DeleteObject-versionId", "bucket-name", "ChangeBucketOwner-bucket", "PutObjectLegalHold", "GetObjectAttributes", "ListParts-uploadId", "UploadPartCopy-source"}
+		"GetObject-versionId", "DeleteObject-versionId", "GetObject-versionId@v", "DeleteObject-versionId@v", "DeleteObjects-versionId@v", "DeleteObjects-versionId-dup@v", "bucket-name", "ChangeBucketOwner-bucket", "PutObjectLegalHold", "GetObjectAttributes", "ListParts-uploadId", "UploadPartCopy-source"}
 	r := lib.NewRand(a.Seed).Fork()
 	if only := os.Getenv("C04_OPS"); only != "" {
 		ops = strings.Split(only, ",")
@@ -150,6 +154,20 @@ func c04Probe(a lib.Args, res *lib.Result) error {
 		}
 		for j := 0; j < c.depth; j++ {
 			enc = append(enc, sp.up)
+		}
+		// a version id is resolved below <versioning dir>/<bucket>/xx/yy/zz/<sha256(key)>/, an upload id below
+		// <bucket>/.sgwtmp/multipart/<sha256(key)>/: odd cases climb that much further, so that the
+		// traversal really ends at the canaries
+		if i%2 == 1 {
+			extra := 0
+			if strings.Contains(c.op, "versionId") {
+				extra = 4
+			} else if strings.Contains(c.op, "uploadId") {
+				extra = 3
+			}
+			for j := 0; j < extra; j++ {
+				enc = append(enc, sp.up)
+			}
 		}
 		for _, p := range parts {
 			if p == ".." {
@@ -211,6 +229,22 @@ func c04Probe(a lib.Args, res *lib.Result) error {
 			req.Path, req.Query = "/abk/own", "versionId="+name
 		case "DeleteObject-versionId":
 			req.Method, req.Path, req.Query = "DELETE", "/abk/own", "versionId="+name
+		case "GetObject-versionId@v":
+			req.Path, req.Query = "/vbk/own", "versionId="+name
+		case "DeleteObject-versionId@v":
+			req.Method, req.Path, req.Query = "DELETE", "/vbk/own", "versionId="+name
+		case "DeleteObjects-versionId@v", "DeleteObjects-versionId-dup@v":
+			req.Method, req.Path, req.Query = "POST", "/vbk", "delete"
+			var b bytes.Buffer
+			b.WriteString("<Delete>")
+			if strings.Contains(c.op, "-dup") {
+				// the same key twice: a harmless entry first, the hostile version id on the repetition
+				b.WriteString("<Object><Key>own</Key><VersionId>01ARZ3NDEKTSV4RRFFQ69G5FAV</VersionId></Object>")
+			}
+			b.WriteString("<Object><Key>own</Key><VersionId>")
+			xmlEscape(&b, rawName)
+			b.WriteString("</VersionId></Object></Delete>")
+			req.Body = b.Bytes()
 		case "bucket-name":
 			// the bucket position itself carries the traversal
 			req.Path = "/" + strings.TrimPrefix(name, sp.up+sp.sep)
@@ -253,6 +287,20 @@ func c04Probe(a lib.Args, res *lib.Result) error {
 					res.Fail(lib.Failure{Kind: "property", Signature: sig + ":stat-outside", What: "metadata of something outside the named bucket disclosed (" + c.target + ")", Input: in, Impl: fmt.Sprintf("%d size=%s", rsp.Status, sz)})
 				}
 			}
+		}
+		// content from outside may also have been copied INTO the named bucket (copy sources)
+		for _, dir := range []string{"root/abk", "root/vbk", "versions/abk", "versions/vbk"} {
+			filepath.Walk(filepath.Join(cfg.Work, dir), func(p string, fi os.FileInfo, err error) error {
+				if err != nil || fi.IsDir() || fi.Size() > 1<<20 {
+					return nil
+				}
+				if data, e := os.ReadFile(p); e == nil && bytes.Contains(data, []byte("CANARY-c04-9d1f")) {
+					rel, _ := filepath.Rel(cfg.Work, p)
+					res.Fail(lib.Failure{Kind: "property", Signature: sig + ":copied-from-outside", What: "content stored outside the named bucket was copied into it (" + rel + ")", Input: in, Impl: fmt.Sprintf("%d %s", rsp.Status, rsp.ErrCode())})
+					os.Remove(p)
+				}
+				return nil
+			})
 		}
 		after := protected()
 		if d := snap.Diff(after); len(d) > 0 {
